@@ -7,7 +7,8 @@ MANIFEST = dict(
          "sequences that overflow the cache) against the Prop_C09 monitor, which evaluates First(rules, query) itself in TLA+ "
          "(independent formulation: position-set wildcard matching, bit-prefix CIDR). TLC-generated (rule list, query sequence) "
          "behaviours and seeded random rule files with long query streams are run through the real ParseTextRules+Compile+Match "
-         "(cache sizes 1..1024, every query also asked on a freshly compiled history-free copy) and through the real "
+         "(cache sizes 1..1024, every query also asked on a freshly compiled history-free copy; plus a concurrent phase: 8-12 goroutines looking up "
+         "unique host names on ONE rule set with wildcard rules, each answer and its later re-ask logged as Match events) and through the real "
          "NewACLEngineFromString with recording outbounds (default fallback, reject, hijack rewriting, >1024 distinct keys); "
          "every real answer is validated by TLC against the same monitor.",
     note="Trusted: TLC; the harness' rendering of the structured rule (logged for the monitor) into ACL text. "
@@ -39,7 +40,7 @@ def run(ctx):
         ctx.tlc_mc("MC_ACL", "MC_ACL_mut%s.cfg" % m, expect_violation=True)
     scns = ctx.tlc_gen("MC_ACL", "Gen_ACL.cfg", num=1500 if T else 150, depth=14)
     ctx.write_scenarios("acl", scns)
-    ctx.go_test("extras", "./outbounds/acl/", "TestVerif_C09$", ["harness/extras/outbounds/acl/c09_test.go"])
+    ctx.go_test("extras", "./outbounds/acl/", "TestVerif_C09(Conc)?$", ["harness/extras/outbounds/acl/c09_test.go"])
     ctx.go_test("extras", "./outbounds/", "TestVerif_C09Engine$", ["harness/extras/outbounds/c09_engine_test.go"])
     events = ctx.validate("Prop_C09", sig=sig, distinct=distinct)
     if not ctx.replay:
@@ -49,8 +50,14 @@ def run(ctx):
         dfl = sum(1 for e in events if e["ev"] == "Engine" and e["called"] in (1, 97))
         if not ctx.viol and (hit < 50 or miss < 50 or hij < 5 or dfl < 5):
             raise Broken("driver is vacuous: matches=%d no-matches=%d hijacks=%d default=%d" % (hit, miss, hij, dfl))
-        ctx.extra["c09_mix"] = dict(matched=hit, unmatched=miss, engine_hijacks=hij)
+        procs = [e["procs"] for e in events if e["ev"] == "ConcInfo"]
+        if not procs:
+            raise Broken("the concurrent-lookup phase did not run")
+        ctx.extra["c09_mix"] = dict(matched=hit, unmatched=miss, engine_hijacks=hij, concurrent_phase_processors=procs[0])
+        if procs[0] < 2:
+            ctx.assumptions.append("WARNING: only one processor was available: the concurrent-lookup phase ran without real parallelism")
     ctx.assumptions += ["host names are ASCII without xn-- labels (IDNA decoding is third-party); rule ports are >= 1 (a range starting at 0 means 'any port' in the code)",
                         "the IPv6 slot of a query never holds an IPv4-mapped address",
-                        "the harness' rendering of a structured rule to ACL text is trusted (several equivalent spellings are exercised)"]
+                        "the harness' rendering of a structured rule to ACL text is trusted (several equivalent spellings are exercised)",
+                        "concurrent phase: 8-12 goroutines on one compiled rule set, unique host names; a race needs >= 2 processors and is observed probabilistically (about 2-3% of the lookups with the seeded shared-buffer matcher)"]
     return ctx.finish(rule="distinct (scenario, host, v4, v6, protocol, port) lookups on real compiled rule sets / ACL engines, each compared with the monitor's own First(rules, query)")
